@@ -235,6 +235,29 @@ def fixed_requests(tmp):
     reqs.append(({'kind': 'assist', 'src': MULTI_ASSIGN + 'b.', 'pos': [48, 2], 'filename': fn, 'roots': [tmp]}, True, 3))
     reqs.append(({'kind': 'location', 'src': MULTI_ASSIGN, 'pos': [47, 12], 'filename': fn, 'roots': [tmp]}, True, 7))
     reqs.append(({'kind': 'lint', 'src': MULTI_ASSIGN, 'filename': fn, 'roots': [tmp]}, False, 0))
+    # the same import repeated on several paths that meet in a join, in the buffer and in an imported module
+    rep = ('c = d = 0\nif c:\n    from os import path as tool\nelif d:\n    from os import path as tool\nelse:\n    from os import path as tool\n'
+           'try:\n    import json as tool2\nexcept ImportError:\n    import json as tool2\nfor q in [1]:\n    import fx_mod as tool3\nelse:\n    import fx_mod as tool3\n')
+    with open(os.path.join(tmp, 'replib.py'), 'w') as f:
+        f.write(rep)
+    rfn = os.path.join(tmp, 'repmain.py')
+    for tail, col, n in (('print(tool, tool2, tool3)\n', 10, 3), ('print(tool, tool2, tool3)\n', 17, 2), ('print(tool, tool2, tool3)\n', 24, 2)):
+        reqs.append(({'kind': 'location', 'src': rep + tail, 'pos': [rep.count('\n') + 1, col], 'filename': rfn, 'roots': [tmp, suppview.FIXTURES]}, True, n))
+    reqs.append(({'kind': 'lint', 'src': rep + 'print(tool2)\n', 'filename': rfn, 'roots': [tmp, suppview.FIXTURES]}, True, 3))
+    for expr in ('replib.tool', 'replib.tool2', 'replib.tool3'):
+        src = 'import replib\n' + expr
+        reqs.append(({'kind': 'location', 'src': src, 'pos': [2, len(expr)], 'filename': rfn, 'roots': [tmp, suppview.FIXTURES]}, True, 3))
+        reqs.append(({'kind': 'assist', 'src': src + '.', 'pos': [2, len(expr) + 1], 'filename': rfn, 'roots': [tmp, suppview.FIXTURES]}, True, 3))
+    # a dotted import whose package does not import the submodule itself, used by a function of an imported module:
+    # the same request must be answered alike the second time
+    os.makedirs(os.path.join(tmp, 'dotpkg'), exist_ok=True)
+    for rel, text in (('dotpkg/__init__.py', ''), ('dotpkg/sub.py', 'class Thing(object):\n    alpha = 1\n    beta = 2\n'),
+                      ('dotlib.py', 'import dotpkg.sub\n\n\ndef make():\n    return dotpkg.sub.Thing()\n\n\nvalue = dotpkg.sub.Thing\n')):
+        with open(os.path.join(tmp, rel), 'w') as f:
+            f.write(text)
+    dsrc = 'from dotlib import make, value\nthing = make()\nthing.alpha\nvalue.beta\n'
+    for kind, pos in (('assist', [3, 6]), ('location', [3, 11]), ('assist', [4, 6]), ('location', [4, 10]), ('assist', [3, 6])):
+        reqs.append(({'kind': kind, 'src': dsrc, 'pos': pos, 'filename': rfn, 'roots': [tmp]}, True, 2))
     cyc = 'from cyc_a import *\nfrom cyc_b import *\nfrom cyc_e import *\nimport cyc_a, cyc_b\n'
     cfn = os.path.join(suppview.FIXTURES, 'gen_prog.py')
     for tail, pos in (('cyc_a.', (5, 6)), ('cyc_b.', (5, 6)), ('c', (5, 1)), ('cyc_a.cb', (5, 8))):
@@ -289,9 +312,9 @@ def w_batch(job):
             sh.case(req, nt, {'kind': req['kind'], 'pos': req.get('pos'), 'alternatives': nalts, 'file': os.path.basename(req['filename']),
                               'line': (req['src'].splitlines()[req['pos'][0] - 1][:80] if req.get('pos') and req['pos'][0] <= len(req['src'].splitlines()) else None)})
             sh.count('requests:' + req['kind'])
-            sh.count('executions', 2 * k)
+            sh.count('executions', 3 * k)
             first = answers[0][0]
-            if any(a[0] != a[1] for a in answers):
+            if any(len(set(a)) > 1 for a in answers):
                 sh.violation('differs-within-one-process:' + req['kind'], _small(req), 'two identical calls in one process returned different results')
                 continue
             if any(a[0] != first for a in answers):
@@ -343,7 +366,7 @@ def replay(case):
         outs = run_batch([(req, True, 0)], 6, tmp, 'replay')
         answers = [o[0] for o in outs]
         out = []
-        if any(a[0] != a[1] for a in answers):
+        if any(len(set(a)) > 1 for a in answers):
             out.append({'signature': 'differs-within-one-process:' + req['kind'], 'case': case, 'detail': ''})
         elif len({a[0] for a in answers}) > 1:
             out.append({'signature': 'differs-across-processes:' + req['kind'], 'case': case, 'detail': repr(sorted({a[0] for a in answers}))[:400]})
